@@ -16,6 +16,8 @@ static CHAOS: AtomicU64 = AtomicU64::new(0);
 static CHAOS_MAX_YIELDS: AtomicU64 = AtomicU64::new(0);
 // upper bound in microseconds of a pause point sleep, 0 = off
 static PAUSE_MAX_US: AtomicU64 = AtomicU64::new(0);
+/// when set, only the pause point of this name sleeps (one window is held open, nothing else is slowed down)
+static PAUSE_ONLY: Mutex<Option<String>> = Mutex::new(None);
 static TRACE: Mutex<Vec<Event>> = Mutex::new(Vec::new());
 static STATE_LOCK: Mutex<()> = Mutex::new(());
 
@@ -94,6 +96,7 @@ pub fn reset() {
     CHAOS.store(0, Ordering::SeqCst);
     CHAOS_MAX_YIELDS.store(0, Ordering::SeqCst);
     PAUSE_MAX_US.store(0, Ordering::SeqCst);
+    *PAUSE_ONLY.lock().unwrap_or_else(|e| e.into_inner()) = None;
     TRACE.lock().unwrap_or_else(|e| e.into_inner()).clear();
 }
 
@@ -104,6 +107,10 @@ pub fn set_chaos(seed: u64, max_yields: u64) {
 
 pub fn set_pause(max_us: u64) {
     PAUSE_MAX_US.store(max_us, Ordering::SeqCst);
+}
+
+pub fn set_pause_only(name: Option<&str>) {
+    *PAUSE_ONLY.lock().unwrap_or_else(|e| e.into_inner()) = name.map(|s| s.to_string());
 }
 
 pub fn take_trace() -> Vec<Event> {
@@ -157,6 +164,11 @@ pub fn pause(_w: &'static str) {
     let max = PAUSE_MAX_US.load(Ordering::SeqCst);
     if max == 0 {
         return;
+    }
+    if let Some(only) = PAUSE_ONLY.lock().unwrap_or_else(|e| e.into_inner()).as_deref() {
+        if only != _w {
+            return;
+        }
     }
     if let Some(n) = chaos_next(max + 1) {
         if n > 0 {
